@@ -75,6 +75,13 @@ def _val(v):
         return int(m.group(1))
     if d in ('TRUE', 'FALSE'):
         return 1 if d == 'TRUE' else 0
+    if 'binary' in v and re.fullmatch(r'[01]+', v['binary'] or '') and not str(v.get('type', '')).startswith(('float', 'double')) and v.get('name') != 'pointer':
+        b = v['binary']
+        n = int(b, 2)
+        if not str(v.get('type', '')).startswith('unsigned') and b[0] == '1' and 'char' in str(v.get('type', '')) + d:
+            n -= 1 << len(b)
+        if "'" in d or 'char' in str(v.get('type', '')):
+            return n
     m = re.fullmatch(r'(-?[\d.]+(?:e[+-]?\d+)?)f?', d)
     if m and 'binary' in v and v.get('type', '').startswith(('float', 'double')):
         return d
